@@ -25,7 +25,12 @@ trusted_base = [
 ]
 assumptions = ["layout hypothesis for C16_positions_distinct (a fact about the third-party gherkin parser)"]
 
-ALPHA = ["<", ">", "$", "\\", " ", " ", " ", "a", "b", "é", "<", ">", "n"]
+# every Unicode White_Space character and the code points right next to the ranges (what `\s` means for the regex
+# crate: the placeholder-name scanner of the model has the same table)
+WS = [9, 10, 11, 12, 13, 32, 133, 160, 5760, 8192, 8197, 8202, 8232, 8233, 8239, 8287, 12288]
+NEAR = [8, 14, 31, 33, 132, 134, 159, 161, 5759, 5761, 8191, 8203, 8231, 8234, 8238, 8240, 8286, 8288, 12287, 12289]
+ALPHA = ["<", ">", "$", "\\", " ", "\u00a0", "\u2003", "a", "b", "é", "<", ">", "n", "<", ">"] + \
+        [chr(c) for c in WS + NEAR]
 COLS = ["n", "what", "a b", "é", "x", "<n", "n>", "$0"]
 VALS = ["1", "x<n>", "$0", ".*", "", "<what>", "a>b", "é é", "\\1", "v"]
 TEMPL = ["eat <n>", "<n><what>", "no placeholders", "<a b>", "<>", "x <é> y", "<<n>", "<n> and <n>", "< n>", "<n", "n>", "<$0>",
